@@ -231,14 +231,15 @@ let () =
     | _ -> failwith "c14.declared args")
 
 (* bloom filter lookups over a failing source (Sink/Bloom.v)
-   c14.bloom <part,part,...>   part = three flags needs_read faulted clean, e.g. 110
+   c14.bloom <part,part,...>   part = flags needs_read faulted clean [lazy], e.g. 1101
    ->  absent|maybe|failed/<filters consulted> *)
 let () =
   register "c14.bloom" (function
     | [parts] ->
         let ps = List.map (fun p ->
-          if String.length p <> 3 then failwith "part";
-          { Model.p_needs_read = (p.[0] = '1'); p_faulted = (p.[1] = '1'); p_clean = (p.[2] = '1') })
+          if String.length p <> 3 && String.length p <> 4 then failwith "part";
+          { Model.p_needs_read = (p.[0] = '1'); p_faulted = (p.[1] = '1'); p_clean = (p.[2] = '1');
+            p_lazy = (String.length p = 4 && p.[3] = '1') })
           (if parts = "_" then [] else split_on ',' parts) in
         let (a, n) = Model.lookup ps in
         Printf.sprintf "%s/%d" (match a with Model.Absent -> "absent" | Model.Maybe -> "maybe" | Model.Failed -> "failed") (int_of_nat n)
